@@ -179,6 +179,19 @@ class ShiftEval:
         return isinstance(e, ast.Subscript) and isinstance(e.value, ast.Attribute) and \
             e.value.attr == 'centers'
 
+    def wide(self, e):
+        """Is the value computed in double precision whatever the dtype of the array --
+        i.e. does the expression involve the float64 centres, a float literal or a local
+        computed from them?  Such a value is ROUNDED when stored into a narrower column."""
+        for x in ast.walk(e):
+            if isinstance(x, ast.Attribute) and x.attr == 'centers':
+                return True
+            if isinstance(x, ast.Constant) and isinstance(x.value, float):
+                return True
+            if isinstance(x, ast.Name) and x.id in getattr(self, 'env_wide', ()):
+                return True
+        return False
+
     def cond(self, e):
         """Truth of a branch condition, or None."""
         if isinstance(e, ast.Name) and e.id == self.inv:
@@ -570,17 +583,40 @@ def rule_M6(ctx, rid='M6'):
         lin = {}
         for direction, invval in (('forward', False), ('inverse', True)):
             se = ShiftEval(f, out_names | {pts}, idx_var, {}, inv, invval, centers)
+            se.env_wide = set()
+            # locals bound before the loop (e.g. a hoisted sign)
+            for s0 in f.node.body:
+                if s0 is lp:
+                    break
+                if isinstance(s0, ast.Assign) and len(s0.targets) == 1 and \
+                        isinstance(s0.targets[0], ast.Name) and \
+                        s0.targets[0].id not in out_names:
+                    try:
+                        se.env[s0.targets[0].id] = se.ev(s0.value)
+                        if se.wide(s0.value):
+                            se.env_wide.add(s0.targets[0].id)
+                    except AnalysisError:
+                        pass
+
+            def stored(iv, value):
+                # a double-precision result stored into a column of unknown (possibly
+                # narrower) dtype is rounded to nearest: an open upper end can be reached
+                if se.wide(value) and iv.hi_open and not math.isinf(iv.hi):
+                    return Iv(iv.lo, iv.hi, iv.lo_open, False)
+                return iv
             for s in lp.body:
                 if isinstance(s, ast.Assign) and isinstance(s.targets[0], ast.Subscript) and \
                         se.is_col(s.targets[0]):
                     iv, ln = se.ev(s.value)
-                    se.col = iv
+                    se.col = stored(iv, s.value)
                     n_store += 1
                 elif isinstance(s, ast.Assign) and isinstance(s.targets[0], ast.Name):
                     se.env[s.targets[0].id] = se.ev(s.value)
+                    if se.wide(s.value):
+                        se.env_wide.add(s.targets[0].id)
                 elif isinstance(s, ast.AugAssign) and se.is_col(s.target):
                     iv, ln = se.ev(ast.BinOp(left=s.target, op=s.op, right=s.value))
-                    se.col = iv
+                    se.col = stored(iv, s.value)
                     n_store += 1
                 elif isinstance(s, ast.Assign) and isinstance(s.targets[0], ast.Subscript):
                     # masked store: points_t[mask, dim] = const  with mask a comparison on col
@@ -607,7 +643,9 @@ def rule_M6(ctx, rid='M6'):
                    'column in [0,1), centers in %r => stored value in %r %s [0,1)' % (
                        centers, se.col, 'within' if ok else 'NOT within') + (
                        '' if ok else ' (a sum that may be negative reduced with a single `% 1` '
-                       'can round to exactly 1.0)'),
+                       'can round to exactly 1.0; so can a double-precision result when it is '
+                       'stored into a float32 column -- the last statement must reduce the '
+                       'STORED column)'),
                    {'centers': repr(centers), 'result': repr(se.col)})
             lin[direction] = [se.shift_form.tup()] if se.shift_form is not None else []
         # (d) forward and inverse are opposite shifts of the same magnitude
